@@ -536,7 +536,8 @@ def form_points(case):
     kind = case.get('kind', 'jac')
     if rt in ('fam', 'famseq', 'jder'):
         if integral and nonneg:
-            pts = [0, 1, 1]
+            # unsigned / boolean grids: only the non-negative part of the domain is representable
+            pts = [0, 1, 1] if form == 'bool' else {'lag': [0, 1, 3], 'he': [0, 1, 2], 'h': [0, 1, 2]}.get(kind, [0, 1, 1])
         elif integral:
             pts = {'lag': [0, 1, 2], 'he': [-1, 0, 2], 'h': [-1, 0, 2]}.get(kind, [-1, 0, 1])
         else:
@@ -626,32 +627,9 @@ SEQ_KINDS = [('he', ()), ('h', ()), ('lag', (0.5,)), ('jac', (0.5, 1.5)), ('lege
 SEQ_ARGS = (['jder.s', 'qbfsder.cs', 'q2dder.cns', 'zzqbfs.coefs', 'zzqcon.coefs', 'zzq2d.cm0', 'zzq2d.ams', 'zzq2d.bms',
              'zzq2d.ams-inner', 'zzq2d.bms-inner', 'zzq2d.all', 'zernseq.nms', 'zernseq.rows']
             + [f'derseq.ns/{k}' for k, _ in SEQ_KINDS])
-# cheby.py is not this check's to repair: np.asarray(ns) on a one-shot iterable (see notes/findings_C09.txt)
-SEQ_KNOWN = {('derseq.ns/cheby2', 'TypeError'): 'cheby-der-seq-one-shot-ns', ('derseq.ns/cheby4', 'TypeError'): 'cheby-der-seq-one-shot-ns'}
-
-
-def _cheby_one_shot_witness():
-    P, qp, J = _impl()
-    try:
-        P.cheby2_der_seq(iter([0, 1, 2]), np.linspace(-0.5, 0.5, 3))
-        P.cheby4_der_seq((n for n in [0, 1, 2]), np.linspace(-0.5, 0.5, 3))
-    except TypeError:
-        return True
-    return False
-
-
-def _unsigned_witness():
-    P, qp, J = _impl()
-    x = np.array([0, 1, 1], dtype=np.uint8)
-    try:
-        got = np.asarray(P.legendre_der(3, x), dtype=float)
-    except Exception:
-        return True
-    return not np.allclose(got, P.legendre_der(3, x.astype(float)))
-
-
-KNOWN = {'cheby-der-seq-one-shot-ns': {'witness': _cheby_one_shot_witness},
-         'unsigned-coordinates-wrap': {'witness': _unsigned_witness}}
+# no known findings: cheby2_der_seq / cheby4_der_seq on one-shot iterables was repaired in cheby.py by its owner (29efa78, listed
+# under C08); unsigned coordinate arrays are repaired in the derivative routines (round 5)
+KNOWN = {}
 
 
 def seq_call(case, P, qp, J):
@@ -1560,12 +1538,6 @@ def correspondence(ctx):
         run_pred('coords', case)
     for case in dtype_cases(rng, ctx.thorough):
         ctx.case('coords', case, nontrivial=True, tag=f'{case["routine"]}/{case.get("kind", "")}/{case["form"]}/dtype')
-        if case['form'] in ('u8', 'u16'):
-            # unsigned coordinates wrap around in `x - 1`, `2 - 4 * x`, `-x` (value routines included): known finding, counted
-            ok_, detail_ = pred_safe(case, ctx)
-            if not ok_:
-                ctx.filtered_known['unsigned-coordinates-wrap'] += 1
-            continue
         run_pred('coords', case)
     for case in buffer_cases(rng, ctx.scale(120, 1200)):
         ctx.case('buffer', case, nontrivial=True, tag=f'{case["routine"]}/{case["fill"]}')
@@ -1580,12 +1552,7 @@ def correspondence(ctx):
         ctx.case('seqarg', case, nontrivial=True, tag=f'{case["routine"]}/{case["form"]}')
         ok, detail = pred_safe(case, ctx)
         if not ok:
-            key = next((k for (rt_, exn), k in SEQ_KNOWN.items() if rt_ == case['routine'] and f'raised {exn}' in detail
-                        and case['form'] not in ('list', 'tuple', 'ndarray', 'range', 'deque')), None)
-            if key:
-                ctx.filtered_known[key] += 1
-            else:
-                ctx.pred_fail('seqarg', case, detail)
+            ctx.pred_fail('seqarg', case, detail)
 
     # ------------------------------------------------ conic base surfaces and Q2d_and_der (x/raytracing/surfaces.py)
     S = _surf()
